@@ -342,6 +342,29 @@ pub fn expect(cap: usize, len: usize, act: &Act) -> Exp {
                 post: Post::Consumed,
             };
         }
+        DrainDebug(rs, s) => {
+            let (a, b) = match rs.resolve(len) {
+                Ok(x) => x,
+                Err(()) => return panics(),
+            };
+            let rest = script_trace(&pre[a..b], s, &mut trace);
+            let rest: Vec<Tag> = rest.into_iter().collect();
+            trace.push(Obs::Str(debug_string(&rest, 0)));
+            v.drain(a..b);
+        }
+        IterDebug(kind, s) => {
+            let rest = script_trace(&pre, s, &mut trace);
+            let rest: Vec<Tag> = rest.into_iter().collect();
+            trace.push(Obs::Str(debug_string(&rest, 0)));
+            if kind == 2 {
+                return Exp {
+                    panics: false,
+                    trace,
+                    post: Post::Consumed,
+                };
+            }
+            return unchanged(trace);
+        }
         DropBuf => {
             trace.push(Obs::Unit);
             return Exp {
